@@ -133,15 +133,17 @@ Lemma one_collection_per_name_p : forall fixed slots sched g cs,
   uniq_names g -> uniq_names (fst (run_all fixed slots g cs sched)).
 Proof. intros. apply run_all_P; auto. intros. eapply mstep_uniq_names; eauto. Qed.
 
-(* one winner, at the step: a put succeeds iff its key is free, and afterwards the key is taken *)
+(* one winner, at the step: a put succeeds only on a free key (of a run whose run row exists) and takes it; on a taken
+   key it is refused with a conflict and changes nothing *)
 Lemma put_one_winner_step_p : forall fixed slots g own run det v s g' r own',
   mstep fixed slots g own (Put run det v) s = (g', Done r own') ->
-  (r = OkU -> has_key g run det = false /\ has_key g' run det = true) /\
+  (r = OkU -> has_key g run det = false /\ memN run (runs g) = true /\ has_key g' run det = true) /\
   (has_key g run det = true -> lookup run (colls g) = Some CRun -> r = Err EConflict /\ g' = g).
 Proof.
   intros. simpl in H. destruct (lookup run (colls g)) as [[| |]|] eqn:L; try (inversion H; subst; split; [discriminate|congruence]).
+  destruct (memN run (runs g)) eqn:R; simpl in H; [|inversion H; subst; split; [discriminate|auto]].
   destruct (has_key g run det) eqn:K; inversion H; subst.
   - split; [discriminate|auto].
-  - split; [|discriminate]. intros _. split; auto. unfold has_key. simpl. rewrite existsb_app. simpl.
+  - split; [|discriminate]. intros _. split; auto. split; auto. unfold has_key. simpl. rewrite existsb_app. simpl.
     rewrite !N.eqb_refl. simpl. apply orb_true_r.
 Qed.
